@@ -399,6 +399,10 @@ func c19PrefixKeys(c *ev.Ctx) {
 // fail, hit the engine's limits, or return early.
 // c19RepeatWant: what some of the repeated-run scripts must return (every run).
 var c19RepeatWant = map[string]string{
+	`function bump(n) { n++; return n; } return [bump(2.5), bump(100000), bump(3), 2.5, 100000];`:                                                                                                                   "ARRAY:[3.5, 100001, 4, 2.5, 100000]",
+	`function drop(n, m) { n--; m -= 1.5; m *= 2; return [n, m]; } return drop(100000, 0.25);`:                                                                                                                      "ARRAY:[99999, -2.5]",
+	`foreach v1 in [0.5, 1.5, 70000] { v1++; t(v1); } foreach i2, v2 in [0.5, 70000] { i2++; v2--; t(i2, v2); } return [0.5, 70000];`:                                                                               "ARRAY:[0.5, 70000]",
+	`function neg(k) { switch (k) { case 1, 2, 3 { return -2.5; } default { return -70000; } } } return [neg(1), neg(2), neg(3), neg(4), -2.5, -1];`:                                                                "ARRAY:[-2.5, -2.5, -2.5, -70000, -2.5, -1]",
 	`function find(ids) { foreach i1 in ids { if (seen) { return "again " + string(seen); } local seen; seen = i1; if (i1 == 7) { return "found"; } } return "none"; } return [find(Ids), find([1, 7]), find([])];`: "ARRAY:[found, again 1, none]",
 	`function tag(name) { return "t:" + name; } function who() { return "user:" + name; } return [tag("nobody"), who(), tag("x")];`:                                                                                 "ARRAY:[t:nobody, user:steve, t:x]",
 	`function a(p) { local l; l = p; return l; } function b() { return [p, l]; } return [a(1), b(), a(2), b()];`:                                                                                                    "ARRAY:[1, [null, null], 2, [null, null]]",
@@ -410,6 +414,10 @@ func c19RepeatedRuns(c *ev.Ctx) {
 		obj    map[string]interface{}
 	}{
 		{`function down(n) { v(n % 1000 == 0); if (n <= 0) { return 0; } return 1 + down(n - 1); } return down(Depth);`, map[string]interface{}{"Depth": 20000}},
+		{`function bump(n) { n++; return n; } return [bump(2.5), bump(100000), bump(3), 2.5, 100000];`, nil},
+		{`function drop(n, m) { n--; m -= 1.5; m *= 2; return [n, m]; } return drop(100000, 0.25);`, nil},
+		{`foreach v1 in [0.5, 1.5, 70000] { v1++; t(v1); } foreach i2, v2 in [0.5, 70000] { i2++; v2--; t(i2, v2); } return [0.5, 70000];`, nil},
+		{`function neg(k) { switch (k) { case 1, 2, 3 { return -2.5; } default { return -70000; } } } return [neg(1), neg(2), neg(3), neg(4), -2.5, -1];`, nil},
 		{`function down(n) { if (n <= 0) { return v(0); } return 1 + down(n - 1); } return down(Depth);`, map[string]interface{}{"Depth": 9999}},
 		{`function down(n) { if (n <= 0) { panic("bottom"); } return 1 + down(n - 1); } return down(Depth);`, map[string]interface{}{"Depth": 3000}},
 		{`foreach i, e in [3, 1, 2] { foreach j, f in "ab" { v(i, e, j, f); if (e == 1) { return [i, j]; } } } return 0;`, nil},
